@@ -4,26 +4,35 @@ from harness.common import finish, load_findings, run_pool, seed
 from symx import selftest
 
 
-def tasks_for(prop, tier, cfg=None, structure_filter=None):
-    findings = [f for f in load_findings(prop) if f.get("family") == "stage"]
+def tasks_for(prop, tier, cfg=None, structure_filter=None, scenario="single", judge=None, sizes=None, findings_prop=None):
+    findings = [f for f in load_findings(findings_prop or prop) if f.get("family") == "stage"]
     tasks = []
     for st in stage.structures(tier):
         if structure_filter and not structure_filter(st):
             continue
         k = len(stage.R.free_vars(st["rows"]))
-        for N in stage.sizes(tier, k):
-            tasks.append(("harness.stage", "run_obligation", "%s/N=%d" % (st["name"], N),
-                          dict(prop=prop, st_name=st["name"], tier=tier, N=N, findings=findings, cfg=cfg)))
+        for N in (sizes(tier, k) if sizes else stage.sizes(tier, k)):
+            tasks.append(("harness.stage_run", "run_obligation", "%s/%s/N=%d" % (scenario, st["name"], N),
+                          dict(prop=judge or prop, st_name=st["name"], N=N, findings=findings, scenario=scenario, cfg=cfg)))
     return tasks
 
 
-def main(prop, tier, t0, cfg=None, structure_filter=None, explanation="", budget=(900, 5400)):
+def main(prop, tier, t0, cfg=None, structure_filter=None, explanation="", budget=(900, 5400), tasks=None, extra_meta=None):
     st = selftest.run(seed(), rounds=30)
-    tasks = tasks_for(prop, tier, cfg, structure_filter)
+    if tasks is None:
+        tasks = tasks_for(prop, tier, cfg, structure_filter)
     results = run_pool(tasks, budget_s=budget[0] if tier == "quick" else budget[1])
     meta = dict(functions_encoded=stage.FUNCTIONS, assumptions=stage.ASSUMPTIONS, stubs=shims.STUBS_DOC[:1],
                 bounds={"structures": [s["name"] for s in stage.structures(tier)], "class sizes N": "see obligations (structure/N=..)",
                         "switches": "symbolic booleans inside every obligation: " + ", ".join(stage.SWITCHES),
                         "threshold": "symbolic real in [0,1]; witnesses and counterexamples use doubles"},
                 explanation=explanation + " proxy self-test: %r" % (st,))
+    if extra_meta:
+        for k, v in extra_meta.items():
+            if isinstance(meta.get(k), list):
+                meta[k] = meta[k] + v
+            elif isinstance(meta.get(k), dict):
+                meta[k].update(v)
+            else:
+                meta[k] = v
     return finish(prop, tier, results, meta, t0)
